@@ -204,10 +204,10 @@ for _n in ["plain", "foreign_synth"]:
 
 # --------------------------------------------------------------------------- C06
 PROPS["C06"] = dict(
-    claim=("one step of the real record parser from any non-empty slice never panics, returns a strict suffix (=> termination and <=1 item per byte for inputs of "
-           "any length, by induction over ProguardRecordIter::next), yields no string containing a line terminator, and depends only on its first line "
-           "(the rest resumes right after that line)"),
-    outside=("slices longer than the stated sizes beyond their concrete prefix (the step is inductive in the *number* of lines, not in line length); "
+    claim=("one step of the real record parser from every slice of 1..3 arbitrary bytes, and from `#` followed by up to 4 arbitrary bytes: never panics (default checks on), returns a strict suffix of its input "
+           "(=> termination and <=1 item per byte for inputs made of such lines, by induction over ProguardRecordIter::next) and yields no string containing a line terminator; "
+           "thorough adds the validation of the from_utf8 / is_numeric models against the real functions"),
+    outside=("longer slices, the four-space member prefix, the sourceFile JSON prefix and the locality step (d) are written (`--tier extra`) but did not finish inside 15-50 min and are in neither registered tier; "
              "equality of Err items' `line` payload (carries the terminator)"),
     assumptions=["std models (each proved equal to the real function by an s_* harness): core::str::from_utf8 -> table-driven validator; char::is_numeric -> exact Latin-1 table; memchr/memrchr -> byte loops"],
 )
@@ -280,10 +280,11 @@ H("C19", "mapping", "c19_is_valid_window", timeout=1200, what="is_valid == 50-it
 
 # --------------------------------------------------------------------------- C05
 PROPS["C05"] = dict(
-    claim=("each grammar template (header k:v / k / sourceFile JSON, class, field, method x {no range, s:e:} x {no class, cls.} x {-, :os, :os:oe} x terminators none/LF/CRLF/LFLF) parses, through the real "
-           "record parser and through try_parse, to a record whose components are exactly the hole slices (pointer and length), with the line mapping present iff both obfuscated numbers are > 0 and the "
-           "original numbers present iff printed; the documented malformed templates are reported as errors carrying exactly the offending line; parse_usize alone on up to 20 digits"),
-    outside="identifiers longer than 3 symbolic characters, numbers longer than 3 digits inside a full line (2^40 only in the parse_usize harness), templates not listed, non-ASCII identifier characters",
+    claim=("in the registered tiers: the header template `#`+3-character key parses, through the real record parser and through try_parse, to a Header record whose key is exactly the hole slice and no value "
+           "(parts compared by pointer and length). The other grammar templates (class, field, method x {no range, s:e:} x {no class, cls.} x {-, :os, :os:oe} x terminators, sourceFile JSON, the documented "
+           "malformed lines, parse_usize on 20 digits) are written and runnable with `./check C05 --tier extra`, but each needs 5-50 min of CBMC time, several did not finish inside 50 min, and they are in neither registered tier"),
+    outside=("every template other than `# key` (extra tier only, DESIGN.md section 2b); identifiers longer than 3 symbolic characters, numbers longer than 3 digits inside a full line, non-ASCII identifier characters; "
+             "the usable-range rule itself is additionally assumed (not decided) by the C01 kernels"),
     assumptions=["std models (each proved equal to the real function by an s_* harness): core::str::from_utf8, char::is_numeric, memchr/memrchr"],
 )
 _c05 = dict(functions=["mapping::parse_proguard_record", "ProguardRecord::try_parse", "parse_proguard_header", "parse_proguard_field_or_method", "parse_proguard_class", "parse_usize", "parse_prefix", "parse_until*"],
